@@ -244,6 +244,23 @@ def main():
             bad = run_batch(lines, label)
             if bad:
                 found = report(bad, lines); break
+    # the same op stream against an AddressSanitizer build of the working tree (modules opt in with ASAN = True):
+    # out-of-bounds reads/writes that leave the values intact are invisible to the comparison above
+    if driver_ok and not found and getattr(mod, "ASAN", False):
+        try:
+            abuild = vlib.get_build("asan"); aexe = vlib.get_harness(abuild, "asan", getattr(mod, "HARNESS_FLAGS", ""))
+        except vlib.BuildError as e:
+            print("ERROR: sanitizer build failed: %s" % e); finish(2)
+        plain = ctx.harness; ctx.harness = aexe
+        env0 = ctx.mod_env; ctx.mod_env = dict(env0 or {}, ASAN_OPTIONS="detect_leaks=0:allocator_may_return_null=1")
+        frac = getattr(mod, "ASAN_FRACTION", 1.0 if tier == "quick" else 0.5)
+        for label, lines in batches:
+            if not lines or found: continue
+            sub = lines if frac >= 1.0 or label == "corpus" else [l for i, l in enumerate(lines) if (i * 7919) % 1000 < frac * 1000 or l.startswith("@")]
+            bad = run_batch(sub, "asan-" + label)
+            if bad: found = report(bad, sub)
+        cov["asan_ops"] = True
+        ctx.harness = plain; ctx.mod_env = env0
     # property-specific extra monitors (sanitizer builds, thread runs, compiled C++ programs, ...)
     extra_v = []
     if hasattr(mod, "extra") and not found:
